@@ -37,7 +37,7 @@ REGISTRATION = {
             "write).",
 }
 
-MODULES = ["OllamaVerif.Properties.C12"]
+MODULES = ["OllamaVerif.Properties.C12", "OllamaVerif.Tie.C12"]
 THEOREMS = [
     "OllamaVerif.C12.effect_preserves_inv",
     "OllamaVerif.C12.seq_preserves_inv",
@@ -54,6 +54,9 @@ THEOREMS = [
     "OllamaVerif.C12.rerun_converges_pull",
     "OllamaVerif.C12.prune_clears_partials",
     "OllamaVerif.C12.F26_blind_lister_prunes_every_blob",
+    "OllamaVerif.Tie.C12.serve_repair_order",
+    "OllamaVerif.Tie.C12.serve_repair_is_synchronous",
+    "OllamaVerif.Tie.C12.serve_repair_gating",
     "OllamaVerif.C12.F19a_replaced_model_lost",
     "OllamaVerif.C12.F19b_torn_part_record_blocks_repull",
 ]
@@ -81,7 +84,32 @@ def normalize(line):
     return " ; ".join(out) + (sep + tail if sep else "")
 
 
+def regenerate(ctx):
+    """Tie 1: go/ast over func Serve (server/routes.go): every call of the start-up store repair and of the call that
+    starts serving, in source order, with (inside go/defer/func literal?, conditions of the enclosing ifs)."""
+    rc, out, outdir = ctx.go_test("./server/", OVERLAY, "^TestVerifC12Facts$")
+    rows = []
+    try:
+        for line in open(outdir + "/facts.txt"):
+            line = line.rstrip("\n")
+            if not line:
+                continue
+            name, asyn, conds = (line.split("\t") + ["", ""])[:3]
+            q = lambda x: '"' + x.replace("\\", "\\\\").replace('"', '\\"') + '"'
+            rows.append(f"({q(name)}, {'true' if asyn == 'true' else 'false'}, {q(conds)})")
+    except OSError:
+        pass
+    body = ("-- REGENERATED on every run by vlib/checks/c12.py from the working tree under test. Do not edit.\n"
+            "namespace OllamaVerif.Generated.C12\n"
+            "/-- func Serve (server/routes.go): (call, inside a go statement / function literal / defer, conditions of the\n"
+            "enclosing ifs) for every call of the start-up store repair and of the call that starts serving, in source order -/\n"
+            "def serveCalls : List (String × Bool × String) := [\n  " + ",\n  ".join(rows) + "]\n"
+            "end OllamaVerif.Generated.C12\n")
+    core.write_generated("OllamaVerif/Generated/C12_Serve.lean", body)
+
+
 def run(ctx):
+    regenerate(ctx)
     ctx.lean_check(MODULES, THEOREMS)
     env = {}
     if ctx.thorough:
